@@ -84,6 +84,16 @@ def cases(rng, tier):
                 continue
             prf = IL.to_bytes(32, "big") + bytes(32)
             yield "ckd %s %d prf=%s" % (spec, idx, prf.hex()), "invalid-chosen-prf"
+    # sibling parents differing in exactly one field, derived in one process (result must depend on all of
+    # key, chain code and index and on nothing else)
+    for _ in range(n // 2):
+        spec, k, chain, depth = rand_parent(rng)
+        cls, key, ch, d, idx, t, fp = spec.split(":")
+        i = rng.choice(IDX)
+        ch2 = hx(bytes(rng.getrandbits(8) for _ in range(32)))
+        k2 = hx(rng.randrange(1, N).to_bytes(32, "big"))
+        for kk, cc in [(key, ch), (key, ch2), (k2, ch), (key, ch), (key, ch2)]:
+            yield "ckd P:%s:%s:%s:%s:%s:%s %d -" % (kk, cc, d, idx, t, fp, i), "prv-sibling-parents"
     for i in (2 ** 32, 2 ** 32 + 1, 2 ** 40):
         spec, k, chain, depth = rand_parent(rng)
         yield "ckd %s %d -" % (spec, i), "index-overflow"
